@@ -72,7 +72,23 @@ Definition trunc_model (i : trunc_in) : trunc_out :=
                 (res, match res with Ok o' => size_tab tab o' | _ => 0%N end)) runs.
 Definition trunc_oeqb : trunc_out -> trunc_out -> bool := list_eqb (pair_eqb (res_eqb tobs_eqb) N.eqb).
 
-Definition trunc_ok1 (o : tobs) (tab : list (vec_t * N)) (max : Z) (r : res tobs * N) : bool :=
+(* "an error only if nothing fits" (C17_error_only_if_nothing_fits), executable: every observation the loop measures on
+   the case's witness path - the original, each intermediate one, down to one whose next cut leaves no commit report -
+   exceeds the limit under the case's size table.  [cut_next] = one iteration's cut. *)
+Definition cut_next (pick : nat -> tobs -> N) (n : nat) (o : tobs) : tobs :=
+  match chain_for pick n o with Some c => step o c | None => o end.
+Fixpoint nothing_fits (size : tobs -> N) (max : Z) (pick : nat -> tobs -> N) (fuel n : nat) (o : tobs) : bool :=
+  too_big size max o &&
+  match fuel with
+  | O => false
+  | S fuel' => let o' := cut_next pick n o in
+               match t_commits o' with
+               | [] => true
+               | _ => nothing_fits size max pick fuel' (S n) o'
+               end
+  end.
+
+Definition trunc_ok1 (o : tobs) (tab : list (vec_t * N)) (max : Z) (picks : list N) (r : res tobs * N) : bool :=
   match fst r with
   | Ok o' => Z.leb (Z.of_N (snd r)) max && consistentb o o' &&
              (* nothing is cut when the observation fits *)
@@ -80,11 +96,11 @@ Definition trunc_ok1 (o : tobs) (tab : list (vec_t * N)) (max : Z) (r : res tobs
              (* "if not even one report fits, an error is returned": a result that was cut still has a chain entry
                 (for observations without empty per-chain lists - all that the plugin builds - that is a report) *)
              (tobs_eqb o o' || negb (Nat.eqb (length (t_commits o')) 0))
-  | Err => Z.ltb max (Z.of_N (size_tab tab o))
+  | Err => nothing_fits (size_tab tab) max (pick_of picks) (S (measure o)) 0 o
   | _ => false
   end.
 Definition trunc_ok (i : trunc_in) (out : trunc_out) : bool :=
   let '(o, tab, runs) := i in
   Nat.eqb (length runs) (length out) &&
-  forallb (fun p => trunc_ok1 o tab (fst (fst p)) (snd p)) (combine runs out).
+  forallb (fun p => trunc_ok1 o tab (fst (fst p)) (snd (fst p)) (snd p)) (combine runs out).
 Definition trunc_judge := judge trunc_model trunc_oeqb trunc_ok (fun _ => 0%N).
